@@ -508,7 +508,7 @@ template <typename TN_, typename TA_, Strategy SG_, typename TH_, typename... TS
 HFSM2_CONSTEXPR(14)
 void
 C_<TN_, TA_, SG_, TH_, TS_...>::deepRequestChangeSelectable(Control& control,
-															const Request HFSM2_IF_TRANSITION_HISTORY(request)) noexcept
+															const Request request) noexcept
 {
 	HFSM2_IF_TRANSITION_HISTORY(control.pinLastTransition(HEAD_ID, request.index));
 
@@ -518,6 +518,8 @@ C_<TN_, TA_, SG_, TH_, TS_...>::deepRequestChangeSelectable(Control& control,
 	HFSM2_ASSERT(requested < WIDTH);
 
 	HFSM2_LOG_SELECT_RESOLUTION(control.context(), HEAD_ID, requested);
+
+	SubStates::wideRequestChangeSelectable(control, request, requested);
 }
 
 // - - - - - - - - - - - - - - - - - - - - - - - - - - - - - - - - - - - - - - -
@@ -608,7 +610,7 @@ template <typename TN_, typename TA_, Strategy SG_, typename TH_, typename... TS
 HFSM2_CONSTEXPR(14)
 void
 C_<TN_, TA_, SG_, TH_, TS_...>::deepRequestSelect(Control& control,
-												  const Request HFSM2_IF_TRANSITION_HISTORY(request)) noexcept
+												  const Request request) noexcept
 {
 	HFSM2_IF_TRANSITION_HISTORY(control.pinLastTransition(HEAD_ID, request.index));
 
@@ -618,6 +620,8 @@ C_<TN_, TA_, SG_, TH_, TS_...>::deepRequestSelect(Control& control,
 	HFSM2_ASSERT(requested < WIDTH);
 
 	HFSM2_LOG_SELECT_RESOLUTION(control.context(), HEAD_ID, requested);
+
+	SubStates::wideRequestSelect(control, request, requested);
 }
 
 // - - - - - - - - - - - - - - - - - - - - - - - - - - - - - - - - - - - - - - -
